@@ -418,7 +418,9 @@ class MessageQueue(Entity):
         self._in_flight.pop(message_id, None)
         self._discard_pending(message_id)
 
-        if requeue and msg.delivery_count < self._max_redeliveries:
+        # delivery_count includes the first delivery, so the message has been
+        # redelivered delivery_count - 1 times so far.
+        if requeue and msg.delivery_count <= self._max_redeliveries:
             # Requeue for redelivery
             msg.state = MessageState.PENDING
             self._pending_queue.append(message_id)
@@ -464,8 +466,9 @@ class MessageQueue(Entity):
 
         msg = self._in_flight[message_id]
 
-        if msg.delivery_count >= self._max_redeliveries:
-            # Dead letter
+        if msg.delivery_count > self._max_redeliveries:
+            # Dead letter: all max_redeliveries redeliveries (on top of the
+            # first delivery) have been used up.
             self.reject(message_id, requeue=False)
             return None
 
